@@ -72,7 +72,7 @@ PROPS = {
                                        "sync.Pool hands an object to one goroutine at a time (trusted); the concurrent run only samples schedules"],
     },
     "C04": {
-        "kind": "codec", "modules": ["OAP.Props.C04"], "gens": ["C04"],
+        "kind": "codec", "modules": ["OAP.Props.C04", "OAP.Props.C04a"], "gens": ["C04"],
         "rule": "malformed-input stream over every decoding entry point, both versions: valid frames with each length field set to 0 / max / actual+-1, "
                 "headers claiming 2^24-1 body bytes or 65535 metadata bytes with nothing behind, flag/type-nibble flips, random byte mutations, every "
                 "truncation point, random bytes; each through the real one-shot decoder and through the real streaming decoder whole, 1 byte at a time "
